@@ -60,10 +60,10 @@ class El:
 
 def gen(rng, depth, names, cnt, active, path=()):
     """active: names locally bound by an enclosing element (a global define must not hit those)."""
-    kind = rng.choice(['define', 'define', 'gdefine', 'gmixed', 'grepeat', 'repeat', 'trepeat', 'tdefine', 'plain', 'usemacro', 'define2', 'lambda'])
-    if kind in ('gdefine', 'gmixed', 'grepeat'):
+    kind = rng.choice(['define', 'define', 'gdefine', 'gmixed', 'gtdefine', 'grepeat', 'repeat', 'trepeat', 'tdefine', 'plain', 'usemacro', 'define2', 'lambda'])
+    if kind in ('gdefine', 'gmixed', 'grepeat', 'gtdefine'):
         cands = [n for n in names if n not in active]
-        if not cands or (kind == 'gmixed' and len(names) < 2):
+        if not cands or (kind == 'gmixed' and len(names) < 2) or (kind == 'gtdefine' and len(cands) < 2):
             kind = 'plain'
     if kind in ('define',):
         binds = [(n, next(cnt) if rng.random() < .85 else None) for n in rng.sample(names, rng.randint(1, 2))]
@@ -75,6 +75,9 @@ def gen(rng, depth, names, cnt, active, path=()):
         binds = [(n, next(cnt)), (n, next(cnt))]          # "n 1; n 2": later parts see (and here rebind) earlier ones
     elif kind == 'gdefine':
         binds = [(n, next(cnt)) for n in rng.sample(cands, 1)]
+    elif kind == 'gtdefine':
+        # tal:define="global (a, b) (1, 2)": each name is a global definition of its own element of the value
+        binds = [(n, next(cnt)) for n in rng.sample(cands, 2)]
     elif kind == 'grepeat':
         # tal:repeat="global n ...": the loop variable is a global definition (it persists, nothing is restored)
         binds = [(rng.choice(cands), next(cnt))]
@@ -117,6 +120,8 @@ def ser(n, names):
         a = ' tal:define="%s"' % '; '.join('global %s %d' % b for b in n.binds)
     elif n.kind == 'gmixed':
         a = ' tal:define="global %s %d; %s %d"' % (n.binds[0] + n.binds[1])
+    elif n.kind == 'gtdefine':
+        a = ' tal:define="global (%s, %s) (%d, %d)"' % (n.binds[0][0], n.binds[1][0], n.binds[0][1], n.binds[1][1])
     elif n.kind == 'tdefine':
         a = ' tal:define="(%s, %s) (%d, %d)"' % (n.binds[0][0], n.binds[1][0], n.binds[0][1], n.binds[1][1])
     elif n.kind == 'repeat':
@@ -202,7 +207,7 @@ class Interp:
             for name, v in n.binds:
                 bind(name, v)
             body()
-        elif n.kind == 'gdefine':
+        elif n.kind in ('gdefine', 'gtdefine'):
             for name, v in n.binds:
                 env[name] = v
                 self.globals[name] = v
@@ -347,7 +352,7 @@ def layer_probes(ctx, n, mscope):
         ctx.case(key=(shape(root), tuple(n_ in BUILTIN_NAMES for n_ in names), tuple(sorted(pre))),
                  nontrivial=has_collision(root, pre),
                  sample={'source': src, 'prebound': pre, 'rendered': got} if case < 2 else None)
-        globs = {b[0] for b in all_binds(root, 'gdefine')} | {b[0] for b in all_binds(root, 'grepeat')} | {b[0] for b in list(all_binds(root, 'gmixed'))[::2]} | {MACRO_G, GK}
+        globs = {b[0] for b in all_binds(root, 'gdefine')} | {b[0] for b in all_binds(root, 'gtdefine')} | {b[0] for b in all_binds(root, 'grepeat')} | {b[0] for b in list(all_binds(root, 'gmixed'))[::2]} | {MACRO_G, GK}
         mscope.check(kw, globs, 'probe program')
         if got != want[0]:
             key = 'probe-output-differs'
